@@ -188,7 +188,8 @@ class G:
         rng, e = self.rng, self.env
         k = rng.choice(["format_tight", "block_decl", "select_type", "labelled_call_noparen", "keyword_args", "arith_if", "io_stmts",
                         "named_do", "implied_do_io", "component_assign", "stop", "concat", "two_calls_in_args", "blank_in_chain",
-                        "semicolon_and_other_quote", "semicolon_inside_literal", "associate_selector_starts_with_own_name"])
+                        "semicolon_and_other_quote", "semicolon_inside_literal", "associate_selector_starts_with_own_name",
+                        "associate_name_means_function_after_block", "several_literals_then_call_text"])
         self.forms.add("extra_" + k)
         if k == "semicolon_and_other_quote":
             s_ = rng.choice(e["subs_noargs"])
@@ -197,6 +198,14 @@ class G:
         if k == "semicolon_inside_literal":
             f = rng.choice(e["funcs"])
             return [f"msg = 'say \"'; print *, \"then; call {f}(1)\""], set()
+        if k == "associate_name_means_function_after_block":
+            # inside the block the name is an array (no call); after END ASSOCIATE it is the host's function again
+            f = rng.choice(e["funcs"])
+            arr = rng.choice(e["arrays1"])
+            return [f"associate ({f} => {arr})", f"x = {f}(1)", "end associate", f"x = {f}(2)"], {f.lower()}
+        if k == "several_literals_then_call_text":
+            f, g = rng.choice(e["funcs"]), rng.choice(e["funcs"])
+            return [f"print *, 'a long literal comes first', '{g}(1)', {f}(2)", f"print *, 'abcd', 'a', {f}(1), 'b'"], {f.lower()}
         if k == "associate_selector_starts_with_own_name":
             return [f"associate (obj => obj%{e['tfn']}(k))", "x = x + 1", "end associate"], {e["tfn"].lower()}
         if k == "format_tight":
